@@ -7,6 +7,7 @@ iterator must observe the underlying sequence.
 import OpenFGAVerif.Driver.Proto
 import OpenFGAVerif.Model.Iter
 import OpenFGAVerif.Model.SharedIter
+import OpenFGAVerif.Model.SharedIterCancel
 import OpenFGAVerif.Gen.Iter
 
 open OpenFGAVerif OpenFGAVerif.Proto OpenFGAVerif.Model.Iter
@@ -380,8 +381,60 @@ def stepStress (scriptS planS impl : String) : String :=
         | _ => modelDiff "underlying state"
       | _ => modelDiff "underlying state"
 
+/-- abbreviate a sequence of results as the harness does: "P<k>" for the leading run that equals the script's first `k`
+items, then the remaining tokens -/
+def untilErr : List (Res Item) → List (Res Item)
+  | [] => []
+  | .ok a :: rs => .ok a :: untilErr rs
+  | r :: _ => [r]
+
+def compressToks (pre : List Item) (rs : List (Res Item)) : String :=
+  let toks := (untilErr rs).map resTok
+  let rec lead : List String → List Item → Nat
+    | t :: ts, a :: as => if t == a.show then lead ts as + 1 else 0
+    | _, _ => 0
+  let k := lead toks pre
+  ",".intercalate (s!"P{k}" :: toks.drop k)
+
+open OpenFGAVerif.Model.SharedIter OpenFGAVerif.Model.SharedIterCancel in
+/-- `shc script pauseAt order`: clones A (0) and B (1) of one shared iterator; A drains, its context is cancelled while the
+batch fetch it triggered is inside the underlying iterator's `pauseAt`-th `Next`; then B (live context) drains.
+Property (on the implementation's output alone): B is served every item of the underlying sequence and then its terminal
+error.  Model: `runC` of `Model/SharedIterCancel.lean` with the background context (`reqCtx = false`); the variant
+`reqCtx = true` is run as well to word the diagnosis. -/
+def stepSharedCancel (scriptS pS orderS impl : String) : String :=
+  match parseScript scriptS, pS.toNat? with
+  | some script, some p =>
+    let B := Gen.Iter.sharedBufferSize
+    let pre := prefixItems script
+    let term := errTok (terminal script)
+    let wantB := s!"P{pre.length},{term}"
+    let ka := if B == 0 then 0 else ((p - 1) / B) * B
+    let kk := if B == 0 then 0 else (p - 1) % B
+    let aReads : List CAct := List.replicate ka (CAct.next 0 .never) ++ [CAct.next 0 (.during kk)]
+    let bReads : List CAct := List.replicate (pre.length + 1) (CAct.next 1 .never)
+    let acts : List CAct := if orderS == "0" then [.clone, .clone] ++ aReads ++ bReads else [.clone] ++ aReads ++ [.clone] ++ bReads
+    let model (reqCtx : Bool) : String :=
+      let (outs, s') := runC B reqCtx acts (start { id := 0, rem := script })
+      s!"A={compressToks pre (seenBy 0 acts outs)} B={compressToks pre (seenBy 1 acts outs)} | 1:{s'.under.rem.length}:{s'.under.stops}:{s'.nexts}"
+    let fs := fields impl
+    let gotB := (fs.find? (·.startsWith "B=")).map fun t => String.ofList (t.toList.drop 2)
+    match gotB with
+    | none => modelDiff (model false)
+    | some b =>
+      if b != wantB then
+        let (k, rest) := match b.splitOn "," with
+          | pk :: rest => ((String.ofList (pk.toList.drop 1)).toNat?.getD 0, ",".intercalate rest)
+          | [] => (0, "")
+        let diag := if impl == model true then " (exactly what the model predicts when fetchMore reads with the requester's context instead of a background context)" else ""
+        specViol s!"a cancelled sharer truncated/poisoned another sharer's sequence: got {k} of {pre.length} items and then {rest}, the underlying sequence ends with {term} — clone B (live context) shares the iterator with clone A, whose context was cancelled during the batch fetch it had triggered (underlying Next call {p}){diag}"
+      else if impl != model false then modelDiff (model false)
+      else ok "shared-cancel" true
+  | _, _ => "SKIP unparsable"
+
 def step (c impl : String) : String :=
   match fields c with
+  | ["shc", script, p, order] => stepSharedCancel script p order impl
   | ["ad", adapter, param, scripts, ops] => stepAdapter adapter param scripts ops impl
   | ["sh", _, script, acts] => stepShared script acts impl
   | ["shs", script, plan] => stepStress script plan impl
